@@ -41,7 +41,7 @@ TR = 'chainables.transform'
 
 
 def run(ctx: Ctx):
-  for r in (r1, r2, r3, r4, r5, r6, r9, r11, r12, r13, r14, r15):
+  for r in (r1, r2, r3, r4, r5, r6, r9, r11, r12, r13, r14, r15, r16):
     ctx.guard(r)
   from mlmverif.props import c09
   ctx.include('R-C12-10', 'error skipping configured on a data source survives a'
@@ -832,6 +832,60 @@ def r15(ctx: Ctx):
   ctx.floor(rule, 4, n)
 
 
+def r16(ctx: Ctx):
+  rule = 'R-C12-16'
+  ctx.rule(rule, '"still aligned with its own inputs": on the paired path there is exactly ONE'
+           ' skipping layer. processed_with_inputs re-pairs outputs with the inputs it'
+           ' recorded and relies on the process function answering one output (or one'
+           ' failure) per input; the skipping — with a marker that keeps the positions — is'
+           ' its own. So the function handed to processed_with_inputs never skips errors'
+           ' itself: it is the bare `self._iterate` (ignore_error defaults to False), not a'
+           ' partial/lambda that passes ignore_error on. A process function that silently'
+           ' drops the failing element shifts every later decision to the previous record')
+  repo = ctx.repo
+  n = 0
+  # the default of TreeFn._iterate's flag must be off for the bare method to be non-skipping
+  it_fn = repo.func(TF, 'TreeFn._iterate')
+  a = it_fn.node.args
+  pos = a.posonlyargs + a.args
+  dmap = dict(zip([p_.arg for p_ in pos][len(pos) - len(a.defaults):], a.defaults))
+  dmap.update({k.arg: d for k, d in zip(a.kwonlyargs, a.kw_defaults) if d is not None})
+  flag = next((p_ for p_ in it_fn.params() if 'ignore' in p_), None)
+  default_off = flag is not None and isinstance(dmap.get(flag), ast.Constant) and dmap[flag].value is False
+  for fi in repo.all_functions():
+    if fi.module.name.endswith('_test'):
+      continue
+    for c in walk_no_nested(fi.node):
+      if not (isinstance(c, ast.Call) and unparse(c.func).split('.')[-1] == 'processed_with_inputs' and c.args):
+        continue
+      n += 1
+      f = c.args[0]
+      if isinstance(f, ast.Name):
+        defs = [x.value for x in walk_no_nested(fi.node) if isinstance(x, ast.Assign) and any(
+            isinstance(t, ast.Name) and t.id == f.id for t in x.targets)]
+        if len(defs) == 1:
+          f = defs[0]
+      skips = None
+      if isinstance(f, ast.Attribute) and f.attr == '_iterate':
+        skips = not default_off
+      elif isinstance(f, (ast.Call, ast.Lambda)):
+        kws = [k for y in ast.walk(f) if isinstance(y, ast.Call) for k in y.keywords if k.arg and 'ignore' in k.arg]
+        skips = any(not (isinstance(k.value, ast.Constant) and k.value.value is False) for k in kws)
+        if not kws and not any(isinstance(y, ast.Attribute) and y.attr == '_iterate' for y in ast.walk(f)):
+          skips = None
+      if skips is None:
+        raise AnalysisError(f'{rule}: cannot tell what `{unparse(c.args[0])[:40]}` in {fi.qualname} does with errors')
+      if skips:
+        ctx.fail(rule, fi, f'{fi.qualname}: the process function given to processed_with_inputs does not skip errors itself',
+                 f'`{unparse(f)[:70]}` passes error skipping into the process function of processed_with_inputs:'
+                 ' the failing element then yields NO output (instead of a failure that becomes a skip marker),'
+                 ' the outputs are zipped with the recorded inputs one position off from there on — records'
+                 ' are kept or dropped by their neighbour\'s predicate and the last one is lost', node=c)
+      else:
+        ctx.ok(rule, fi, f'{fi.qualname}: bare process function, one skipping layer', c)
+  ctx.floor(rule, 3, n)
+
+
 def r5(ctx: Ctx):
   rule = 'R-C12-5'
   ctx.rule(rule, 'causes: every `raise X(...)` lexically inside an `except ...'
@@ -887,6 +941,13 @@ from mlmverif.selfcheck import B, OK  # noqa: E402
 _F = 'chainables/tree_fns.py'
 _U = 'utils/iter_utils.py'
 VARIANTS = [
+    B('filter-predicate-skips-twice', 'chainables/tree_fns.py',
+      '    it_ = iter_utils.processed_with_inputs(\n        self._iterate, iter(input_iterator), ignore_error=self.ignore_error\n    )\n    return (elem for (value,), elem in it_ if value)',
+      '    predicate = functools.partial(self._iterate, ignore_error=self.ignore_error)\n    it_ = iter_utils.processed_with_inputs(\n        predicate, iter(input_iterator), ignore_error=self.ignore_error\n    )\n    return (elem for (value,), elem in it_ if value)',
+      'R-C12-16'),
+    OK('filter-process-fn-through-local', 'chainables/tree_fns.py',
+       '    it_ = iter_utils.processed_with_inputs(\n        self._iterate, iter(input_iterator), ignore_error=self.ignore_error\n    )\n    return (elem for (value,), elem in it_ if value)',
+       '    process = self._iterate\n    it_ = iter_utils.processed_with_inputs(\n        process, iter(input_iterator), ignore_error=self.ignore_error\n    )\n    return (elem for (value,), elem in it_ if value)'),
     B('revert-aggregate-failure-stops-pipeline', 'chainables/transform.py',
       '        except Exception:\n          # The iteration cannot go on: ends the worker threads and closes the\n          # stages (e.g., a sink) as when drawing the next batch fails.\n          self.maybe_stop()\n          raise',
       '        except Exception:\n          raise', 'R-C12-15'),
